@@ -185,6 +185,14 @@ func (r *srun) recvField(fr *sframe, e ast.Expr) (string, bool) {
 	if f, ok := recvField(e, fr.recv); ok && fr.recv != "" {
 		return f, true
 	}
+	// a local or a parameter that holds a field's (unchanged) value: `writeString32(buf, p.F)` -> `s` inside the helper
+	if id, ok := e.(*ast.Ident); ok && r.write {
+		if v, ok := fr.sc.get(id.Name); ok && v.k == "field" {
+			if _, assigned := r.fields[v.f]; !assigned {
+				return v.f, true
+			}
+		}
+	}
 	// *ptr where ptr points at a receiver field (table-driven codecs)
 	if st, ok := e.(*ast.StarExpr); ok {
 		if !r.pure(st.X) {
@@ -246,6 +254,20 @@ func (r *srun) evalCall(fr *sframe, c *ast.CallExpr) []sv {
 	}
 	// fmt.Errorf / errors.New: a fresh non-nil error
 	if s := src(c.Fun); s == "fmt.Errorf" || s == "errors.New" {
+		// its arguments are evaluated too: only literals, identifiers and selections are known not to do anything
+		for _, a := range c.Args {
+			ok := true
+			ast.Inspect(a, func(n ast.Node) bool {
+				switch n.(type) {
+				case *ast.CallExpr, *ast.IndexExpr, *ast.SliceExpr, *ast.StarExpr, *ast.TypeAssertExpr:
+					ok = false
+				}
+				return ok
+			})
+			if !ok {
+				r.giveUp("error message computed by %s", src(a))
+			}
+		}
 		return []sv{{k: "errnew"}}
 	}
 	// p.F.Decode(buf) / p.F.Encode(buf); the receiver may also be an expression that denotes a field's object
